@@ -37,6 +37,7 @@ type line struct {
 	Verdict string   `json:"verdict,omitempty"`
 	Detail  string   `json:"detail,omitempty"`
 	Stats   *zzsim.Stats `json:"stats,omitempty"`
+	PB      int          `json:"pb,omitempty"`
 }
 
 func profileFor(p string, i uint64) string {
@@ -68,6 +69,7 @@ func main() {
 	gen := flag.Uint64("gen", 0, "print the case generated for this run seed")
 	full := flag.Bool("full", false, "keep schedules in results")
 	deep := flag.Bool("deep", false, "deeper bounds (thorough tier): larger expressions, more files, tasks and ops")
+	pb1 := flag.Int("pb1", 0, "bounded systematic search: run each generated case under every single-preemption schedule (at most this many runs per case)")
 	emitCase := flag.Bool("emitcase", false, "attach the generated case to every result")
 	flag.Parse()
 
@@ -104,6 +106,17 @@ func main() {
 		c := genCase(seed, p, *deep, i%64 == 0)
 		inflight = c
 		emit(line{Ev: "start", I: i, Seed: seed, Profile: p})
+		if *pb1 > 0 {
+			small(c)
+			n, fr := runPB1(c, *pb1)
+			if fr != nil {
+				c.Sched = SchedM{Strategy: "replay", Seed: c.Sched.Seed, Replay: fr.Stats.Schedule}
+				emit(line{Ev: "end", I: i, Seed: seed, Profile: p, Res: fr, Case: c, PB: n})
+				os.Exit(3)
+			}
+			emit(line{Ev: "pb1", I: i, Seed: seed, Profile: p, PB: n})
+			continue
+		}
 		r := runCase(c)
 		bad := r.Verdict != "ok"
 		slim(r, bad || *full)
@@ -115,5 +128,23 @@ func main() {
 		if bad {
 			os.Exit(3)
 		}
+	}
+}
+
+// small cuts a generated case down to what a bounded systematic search can
+// cover: two tasks, one op each, and most of the time the very same op.
+func small(c *Case) {
+	if len(c.Tasks) > 2 {
+		c.Tasks = c.Tasks[:2]
+	}
+	for t := range c.Tasks {
+		c.Tasks[t].Ops = c.Tasks[t].Ops[:1]
+	}
+	if c.Seed%4 != 0 {
+		c.Tasks[1].Ops[0] = c.Tasks[0].Ops[0]
+	}
+	c.Faults.Abort, c.Faults.Goexit = 0, 0
+	if c.Sched.Victim >= len(c.Tasks) {
+		c.Sched.Victim = 0
 	}
 }
